@@ -168,87 +168,57 @@ theorem fmtLines_spec (wt : List Char) (msg pre rest : List Char) (hwt : wt = pr
       · rw [if_neg hbrk]
         exact ih (cur + 1) _ (fun p hp => hsub p (List.mem_cons_of_mem _ hp)) hout1
 
-/-- (safety + cleanliness) the crate's own window renderer -/
-theorem fmtWindow_spec (text : List Char) (loc : Snippet.Loc) (m : Mapping) (msg : List Char) (r : Nat)
+/-- `sanitize_terminal_message` is the character-level sanitiser (identity on clean text) -/
+theorem sanitizeMessage_eq (msg : List Char) : sanitizeMessage msg = .ok (Spec.Snippet.sanitize msg) := by
+  unfold sanitizeMessage
+  by_cases h : isClean msg = true
+  · rw [if_pos h, sanitize_of_clean msg (by rw [← isClean_eq]; exact h)]
+  · rw [if_neg h, sanitize_eq]
+
+/-- (safety + cleanliness) the crate's own window renderer: never a panic, and its output is clean
+whatever the label contained (the label is sanitised first) -/
+theorem fmtWindow_spec (text : List Char) (loc : Snippet.Loc) (m : Mapping) (msg0 : List Char) (r : Nat)
     (hlen : text.length + 1 ≤ usizeMax) (hcol : loc.column ≤ usizeMax) :
-    ∃ out, fmtWindow text loc m msg r = .ok out ∧ (clean msg = true → clean out = true) := by
+    ∃ out, fmtWindow text loc m msg0 r = .ok out ∧ clean out = true := by
   obtain ⟨res, hs, hok⟩ := prepare_safe text loc m r hlen hcol
   unfold fmtWindow
+  rw [sanitizeMessage_eq]
+  simp only [res_bind_ok]
+  generalize hm : Spec.Snippet.sanitize msg0 = msg
+  have hmsg : clean msg = true := by rw [← hm]; exact sanitize_spec_clean msg0
   rw [hs]
   cases res with
-  | none => exact ⟨[], rfl, fun _ => rfl⟩
+  | none => exact ⟨[], rfl, rfl⟩
   | some p =>
     simp only [res_bind_ok]
     have ok := hok p rfl
     obtain ⟨pre, rest, hwt, hls, _⟩ := prepare_caret text loc m r hlen hcol p hs
     rw [← hls]
     have hgut : clean "  |\n".toList = true := by decide
-    -- safety does not need a clean message: run the loop lemma with the message as it is when it is
-    -- clean, and with the generic safety argument otherwise
-    by_cases hmsg : clean msg = true
-    · obtain ⟨out', cur', hfl, hcl⟩ := fmtLines_spec p.windowText msg pre rest hwt ok.clean hmsg p.row p.windowStartRow
-        p.windowEndRow p.displayStartRow (natStr (absoluteRow m p.windowEndRow)).length
-        (splitInclusive p.windowText) p.windowStartRow "  |\n".toList (splitInclusive_subset _) hgut
-      rw [hfl]
-      simp only [res_bind_ok]
-      obtain ⟨n, hcar⟩ := caretLine_spec p.windowText msg pre rest hwt
-      have hcc := clean_caret n msg hmsg
-      have hpad : ∀ k : Nat, clean (padLeft (natStr k) (natStr (absoluteRow m p.windowEndRow)).length) = true :=
-        fun k => clean_padLeft _ _ (toDigits_clean _)
-      have hbar : clean " |\n".toList = true := by decide
-      by_cases hcond : p.windowEndRow = p.totalLines ∧ p.windowText.getLast? = some '\n' ∧ cur' ≤ p.windowEndRow
-      · rw [if_pos hcond]
-        by_cases hcur : cur' = p.row
-        · rw [if_pos hcur, hcar]
-          simp only [res_bind_ok, res_pure]
-          refine ⟨_, rfl, fun _ => ?_⟩
-          simp only [clean_append, hcl, hpad, hbar, hcc, hgut, Bool.and_self]
-        · rw [if_neg hcur]
-          simp only [res_bind_ok, res_pure]
-          refine ⟨_, rfl, fun _ => ?_⟩
-          simp only [clean_append, hcl, hpad, hbar, hgut, Bool.and_self]
-      · rw [if_neg hcond]
+    obtain ⟨out', cur', hfl, hcl⟩ := fmtLines_spec p.windowText msg pre rest hwt ok.clean hmsg p.row p.windowStartRow
+      p.windowEndRow p.displayStartRow (natStr (absoluteRow m p.windowEndRow)).length
+      (splitInclusive p.windowText) p.windowStartRow "  |\n".toList (splitInclusive_subset _) hgut
+    rw [hfl]
+    simp only [res_bind_ok]
+    obtain ⟨n, hcar⟩ := caretLine_spec p.windowText msg pre rest hwt
+    have hcc := clean_caret n msg hmsg
+    have hpad : ∀ k : Nat, clean (padLeft (natStr k) (natStr (absoluteRow m p.windowEndRow)).length) = true :=
+      fun k => clean_padLeft _ _ (toDigits_clean _)
+    have hbar : clean " |\n".toList = true := by decide
+    by_cases hcond : p.windowEndRow = p.totalLines ∧ p.windowText.getLast? = some '\n' ∧ cur' ≤ p.windowEndRow
+    · rw [if_pos hcond]
+      by_cases hcur : cur' = p.row
+      · rw [if_pos hcur, hcar]
         simp only [res_bind_ok, res_pure]
-        refine ⟨_, rfl, fun _ => ?_⟩
-        simp only [clean_append, hcl, hgut, Bool.and_self]
-    · -- message not clean: only safety is claimed; replay the argument with cleanliness dropped
-      have hsafe : ∀ (pieces : List (List Char)) (cur : Nat) (out : List Char),
-          ∃ out' cur', fmtLines p.windowText (blen pre) msg p.row p.windowStartRow p.windowEndRow p.displayStartRow
-            (natStr (absoluteRow m p.windowEndRow)).length pieces cur out = .ok (out', cur') := by
-        intro pieces
-        induction pieces with
-        | nil => intro cur out; exact ⟨out, cur, rfl⟩
-        | cons piece ps ih =>
-          intro cur out
-          rw [fmtLines]
-          simp only []
-          obtain ⟨n, hcl⟩ := caretLine_spec p.windowText msg pre rest hwt
-          by_cases hcur : cur = p.row
-          · rw [if_pos hcur, hcl]
-            simp only [res_bind_ok, res_pure]
-            by_cases hbrk : cur + 1 > p.windowEndRow
-            · rw [if_pos hbrk]; exact ⟨_, _, rfl⟩
-            · rw [if_neg hbrk]; exact ih _ _
-          · rw [if_neg hcur]
-            simp only [res_bind_ok, res_pure]
-            by_cases hbrk : cur + 1 > p.windowEndRow
-            · rw [if_pos hbrk]; exact ⟨_, _, rfl⟩
-            · rw [if_neg hbrk]; exact ih _ _
-      obtain ⟨out', cur', hfl⟩ := hsafe (splitInclusive p.windowText) p.windowStartRow "  |\n".toList
-      rw [hfl]
-      simp only [res_bind_ok]
-      obtain ⟨n, hcar⟩ := caretLine_spec p.windowText msg pre rest hwt
-      by_cases hcond : p.windowEndRow = p.totalLines ∧ p.windowText.getLast? = some '\n' ∧ cur' ≤ p.windowEndRow
-      · rw [if_pos hcond]
-        by_cases hcur : cur' = p.row
-        · rw [if_pos hcur, hcar]
-          simp only [res_bind_ok, res_pure]
-          exact ⟨_, rfl, fun h => absurd h hmsg⟩
-        · rw [if_neg hcur]
-          simp only [res_bind_ok, res_pure]
-          exact ⟨_, rfl, fun h => absurd h hmsg⟩
-      · rw [if_neg hcond]
+        refine ⟨_, rfl, ?_⟩
+        simp only [clean_append, hcl, hpad, hbar, hcc, hgut, Bool.and_self]
+      · rw [if_neg hcur]
         simp only [res_bind_ok, res_pure]
-        exact ⟨_, rfl, fun h => absurd h hmsg⟩
+        refine ⟨_, rfl, ?_⟩
+        simp only [clean_append, hcl, hpad, hbar, hgut, Bool.and_self]
+    · rw [if_neg hcond]
+      simp only [res_bind_ok, res_pure]
+      refine ⟨_, rfl, ?_⟩
+      simp only [clean_append, hcl, hgut, Bool.and_self]
 
 end SaphyrVerif.Lemmas.C17
